@@ -871,3 +871,57 @@ def expression_context_order(ctx, rule):
                              'context'),
                'continue-on / break-on are not evaluated against the '
                'outbound context of the attempt', ctx.loc(rp))
+
+
+# handlers that may swallow broadly inside a retry-decorated function
+RETRY_SWALLOW_OK = {
+    'mistral.engine.post_tx_queue._process_queue':
+        'non-transactional post-commit operations (notifications, RPC '
+        'sends) are fire-and-forget: their failure is logged, nothing is '
+        'retried by design',
+}
+_BROAD = ('Exception', 'BaseException', 'DBError', 'DBDeadlock',
+          'DBConnectionError', 'OperationalError', 'MistralException',
+          'MistralError')
+
+
+def retry_not_defeated(ctx, rule):
+    """@retry_on_db_error retries when a retryable DB error *propagates* out
+    of the function.  A handler inside the function that catches such
+    errors (Exception, DBError, DBDeadlock, ...) without re-raising turns a
+    transient fault into a silently skipped step: a job that is not
+    deleted and runs again, a state change that is lost."""
+    prog = ctx.prog
+    n = 0
+    for q, f in sorted(prog.funcs.items()):
+        if not any('retry_on_db_error' in norm(d)
+                   for d in f.node.decorator_list):
+            continue
+        n += 1
+        bad = []
+        for t in own_nodes(f.node):
+            if not isinstance(t, ast.Try):
+                continue
+            for h in t.handlers:
+                tys = [x.split('.')[-1] for x in U.handler_types(h)]
+                if not any(x in _BROAD for x in tys):
+                    continue
+                if any(isinstance(x, ast.Raise) for s_ in h.body
+                       for x in ast.walk(s_)):
+                    continue
+                bad.append((h, tys))
+        if q in RETRY_SWALLOW_OK:
+            rule.ok(ctx.construct(f, extra='broad handler (triaged)'),
+                    RETRY_SWALLOW_OK[q])
+            continue
+        rule.check(not bad, ctx.construct(f, extra='errors propagate to the '
+                                          'retry decorator'),
+                   'a handler for %s swallows the error inside a function '
+                   'decorated with retry_on_db_error: a transient DB fault '
+                   'is never retried and the step is silently skipped'
+                   % (bad[0][1] if bad else ''), ctx.loc(f, bad[0][0])
+                   if bad else ctx.loc(f))
+    if n < 20:
+        raise AnalysisError('retry_not_defeated: only %d decorated '
+                            'functions found' % n)
+    return n
